@@ -185,6 +185,25 @@ class MgrGen:
                 lmeta.append({"name": link.name, "kind": "plain", "callback": link.commit_callback is not None})
         self.plain_only = getattr(self, "plain_only", {})
         self.plain_only[cid] = all((" .hist " in l or l.endswith(".skip)") or (" .plain " in l and "] [] [" in l)) for l in links)
+        # do the plain links address pairwise different retrievers? (mirrors Aoe.Props.Links.PDiverge)
+        import re as _re
+        paths = []
+        for l in links:
+            m_ = _re.search(r"\.plain \[([^\]]*)\]", l)
+            if m_:
+                paths.append([tuple(x.strip().lstrip(".").split()) for x in m_.group(1).split(",") if x.strip()])
+
+        def pdiv(p_, q_):
+            if not p_ or not q_:
+                return False
+            a_, b_ = p_[0], q_[0]
+            if a_[0] == "fld" and b_[0] == "fld":
+                return a_[1] != b_[1] or pdiv(p_[1:], q_[1:])
+            if a_[0] == "hidx" and b_[0] == "hidx":
+                return a_[1] == b_[1] and pdiv(p_[1:], q_[1:])
+            return True
+        self.paths_distinct = getattr(self, "paths_distinct", {})
+        self.paths_distinct[cid] = all(pdiv(paths[i], paths[j]) and pdiv(paths[j], paths[i]) for i in range(len(paths)) for j in range(i + 1, len(paths)))
         self.class_defs[cid] = (cls.__name__, links)
         self.meta[cls.__name__] = {"id": cid, "links": lmeta}
         return cid
@@ -243,6 +262,25 @@ def generate(repo, outdir_lean, outdir_json, write_if_changed):
                                 f"    (h : constructObj {mod}.classes (fuel + 1) {cid} hist s = .ok obj) :\n"
                                 f"    commitObj {mod}.classes (fuel + 1) {cid} hist obj s = .ok s :=\n"
                                 f"  Aoe.Props.Links.commit_construct_id {mod}.classes fuel {cid} hist s obj {mod}.c{cid} rfl plainOnly_{mod}_{cname} h\n")
+                if g.paths_distinct.get(cid):
+                    laws_src.append(f"theorem pathsDistinct_{mod}_{cname} : Aoe.Props.Links.ClassSpec.pathsDistinct {mod}.c{cid}.links = true := by decide")
+                    laws_src.append(f"/-- every value pushed by a commit of a {cname} (version {v}) is pulled back by the same link -/\n"
+                                    f"theorem pull_after_commit_{mod}_{cname} (fuel : Nat) (hist : List Nat) (s s' : Sections) (vals : List Val)\n"
+                                    f"    (h : commitObj {mod}.classes (fuel + 1) {cid} hist (.strct vals) s = .ok s')\n"
+                                    f"    (rp : Nat → List Nat → Except Err Val) (a : Nat) (path : List PStep) (names : List Nat) (v : Val)\n"
+                                    f"    (hm : ((a, LinkKind.plain path [] names), v) ∈ {mod}.c{cid}.links.zip vals) :\n"
+                                    f"    pullLink rp hist s' (a, .plain path [] names) = .ok v :=\n"
+                                    f"  Aoe.Props.Links.pull_after_commit {mod}.classes fuel {cid} hist s s' vals {mod}.c{cid} rfl plainOnly_{mod}_{cname}\n"
+                                    f"    pathsDistinct_{mod}_{cname} h rp a path names v hm\n")
+                    laws_src.append(f"/-- two commits of a {cname} (version {v}) from the same sections differ only inside the retrievers of its links -/\n"
+                                    f"theorem edit_lands_{mod}_{cname} (fuel : Nat) (hist : List Nat) (s s1 s2 : Sections) (vals1 vals2 : List Val)\n"
+                                    f"    (h1 : commitObj {mod}.classes (fuel + 1) {cid} hist (.strct vals1) s = .ok s1)\n"
+                                    f"    (h2 : commitObj {mod}.classes (fuel + 1) {cid} hist (.strct vals2) s = .ok s2)\n"
+                                    f"    (q : List Step)\n"
+                                    f"    (hq : ∀ a path acts names p, (a, LinkKind.plain path acts names) ∈ {mod}.c{cid}.links → resolve hist path = some p →\n"
+                                    f"      Aoe.Props.C05.Diverge p q) : getAt q s1.root = getAt q s2.root :=\n"
+                                    f"  (Aoe.Props.Links.edit_lands_only_there {mod}.classes fuel {cid} hist s s1 s2 vals1 vals2 {mod}.c{cid} rfl\n"
+                                    f"    plainOnly_{mod}_{cname} pathsDistinct_{mod}_{cname} h1 h2 (fun _ _ => .error .shape)).2 q hq\n")
         mods.append((v, mod))
         meta_all[v] = {"classes": g.meta, "managers": [c.__name__ for c in mgr_classes]}
     agg = "\n".join(f"import Aoe.Generated.{m}" for _, m in mods) + "\n/-! GENERATED by tools/gen_mgr.py -/\nnamespace Aoe.Generated\nopen Aoe.Commit\n"
@@ -252,7 +290,7 @@ def generate(repo, outdir_lean, outdir_json, write_if_changed):
     fn = os.path.join(outdir_lean, "MgrTables.lean"); write_if_changed(fn, agg); files.append(fn)
     laws = ("import Aoe.Props.Links\nimport Aoe.Generated.MgrTables\n/-! GENERATED by tools/gen_mgr.py – `commit ∘ construct = id` instantiated at every generated class "
             "whose links are plain value links without refresh actions (side condition closed by `decide`). -/\n"
-            "namespace Aoe.Generated.MgrLaws\nopen Aoe Aoe.Codec Aoe.Commit Aoe.Generated\n\n" + "\n".join(laws_src) + "\nend Aoe.Generated.MgrLaws\n")
+            "namespace Aoe.Generated.MgrLaws\nopen Aoe Aoe.Codec Aoe.Lens Aoe.Commit Aoe.Generated\n\n" + "\n".join(laws_src) + "\nend Aoe.Generated.MgrLaws\n")
     fn = os.path.join(outdir_lean, "MgrLaws.lean"); write_if_changed(fn, laws); files.append(fn)
     os.makedirs(outdir_json, exist_ok=True)
     fn = os.path.join(outdir_json, "mgr.json")
